@@ -28,6 +28,8 @@ pub struct Cfg {
     pub srv_lenient: bool,
     pub lat_ns: u64,
     pub n_app: usize,
+    /// generation mood (informational in replays): many back-to-back requests, most replies failing authentication
+    pub storm: bool,
     pub n_inj: usize,
     pub retry_budget: u32,
     pub txid_seed: u64,
